@@ -16,11 +16,51 @@ pub struct ParseOptions {
     pub post_2018: bool,
     /// Maximum nesting depth of selection sets / values / types (guards the native stack).
     pub max_depth: usize,
+    /// Deviations from the grammar that some production parsers are known to tolerate. All off by
+    /// default; they exist so that a differential check can *classify* a disagreement (which
+    /// leniency explains it), never to decide what is valid.
+    pub lenient: Leniency,
 }
 
 impl Default for ParseOptions {
     fn default() -> Self {
-        ParseOptions { lex: LexOptions::default(), post_2018: false, max_depth: 200 }
+        ParseOptions { lex: LexOptions::default(), post_2018: false, max_depth: 200, lenient: Leniency::default() }
+    }
+}
+
+/// Non-grammatical inputs a lenient parse tolerates. Each use is recorded by name in
+/// [`SourceFacts::used_leniencies`].
+#[derive(Clone, Copy, Debug, Default, PartialEq, Eq)]
+pub struct Leniency {
+    /// `"empty-document"`: a document without definitions (`Document : Definition+`).
+    pub empty_document: bool,
+    /// `"empty-extension"`: `extend scalar S`, `extend type T`, `extend union U`, … without
+    /// anything to add.
+    pub empty_extension: bool,
+    /// `"reserved-enum-value"`: `true`, `false`, `null` as enum value *definitions*.
+    pub reserved_enum_value: bool,
+    /// `"fragment-named-on"`: `fragment on on T { … }`.
+    pub fragment_named_on: bool,
+    /// `"description-on-extension"`: a description string before `extend`.
+    pub description_on_extension: bool,
+    /// `"second-description-string"`: two consecutive strings where one description is allowed
+    /// (before type system definitions and field definitions; relay's `hack_source`).
+    pub second_description_string: bool,
+    /// `"directive-without-at"`: `directive name on …`.
+    pub directive_without_at: bool,
+}
+
+impl Leniency {
+    pub fn all() -> Leniency {
+        Leniency {
+            empty_document: true,
+            empty_extension: true,
+            reserved_enum_value: true,
+            fragment_named_on: true,
+            description_on_extension: true,
+            second_description_string: true,
+            directive_without_at: true,
+        }
     }
 }
 
@@ -41,6 +81,8 @@ pub struct SourceFacts {
     pub saw_astral: bool,
     pub saw_surrogate_pair_escape: bool,
     pub used_post_2018: bool,
+    /// Names of the [`Leniency`] items that were needed to accept the input (sorted, unique).
+    pub used_leniencies: Vec<&'static str>,
 }
 
 pub fn parse_document(src: &str) -> Result<Document, SyntaxError> {
@@ -55,16 +97,21 @@ pub fn parse_schema(src: &str) -> Result<Document, SyntaxError> {
 
 pub fn parse_with(src: &str, kind: DocumentKind, opts: ParseOptions) -> Result<(Document, SourceFacts), SyntaxError> {
     let Lexed { tokens, saw_astral, saw_surrogate_pair_escape } = lex(src, opts.lex)?;
-    let mut p = Parser { src, tokens, i: 0, opts, kind, depth: 0, used_post_2018: false };
+    let mut p = Parser { src, tokens, i: 0, opts, kind, depth: 0, used_post_2018: false, used: vec![] };
     let doc = p.document()?;
-    Ok((doc, SourceFacts { saw_astral, saw_surrogate_pair_escape, used_post_2018: p.used_post_2018 }))
+    p.used.sort();
+    p.used.dedup();
+    Ok((
+        doc,
+        SourceFacts { saw_astral, saw_surrogate_pair_escape, used_post_2018: p.used_post_2018, used_leniencies: p.used },
+    ))
 }
 
 /// Parse a single `Value` (variables allowed), e.g. for tests.
 pub fn parse_value(src: &str) -> Result<Value, SyntaxError> {
     let Lexed { tokens, .. } = lex(src, LexOptions::default())?;
     let mut p =
-        Parser { src, tokens, i: 0, opts: ParseOptions::default(), kind: DocumentKind::Any, depth: 0, used_post_2018: false };
+        Parser { src, tokens, i: 0, opts: ParseOptions::default(), kind: DocumentKind::Any, depth: 0, used_post_2018: false, used: vec![] };
     let v = p.value(false)?;
     p.expect(TokenKind::Eof)?;
     Ok(v)
@@ -74,7 +121,7 @@ pub fn parse_value(src: &str) -> Result<Value, SyntaxError> {
 pub fn parse_type(src: &str) -> Result<Type, SyntaxError> {
     let Lexed { tokens, .. } = lex(src, LexOptions::default())?;
     let mut p =
-        Parser { src, tokens, i: 0, opts: ParseOptions::default(), kind: DocumentKind::Any, depth: 0, used_post_2018: false };
+        Parser { src, tokens, i: 0, opts: ParseOptions::default(), kind: DocumentKind::Any, depth: 0, used_post_2018: false, used: vec![] };
     let v = p.ty()?;
     p.expect(TokenKind::Eof)?;
     Ok(v)
@@ -88,6 +135,7 @@ struct Parser<'a> {
     kind: DocumentKind,
     depth: usize,
     used_post_2018: bool,
+    used: Vec<&'static str>,
 }
 
 type PResult<T> = Result<T, SyntaxError>;
@@ -194,6 +242,10 @@ impl<'a> Parser<'a> {
     // Document : Definition+
     fn document(&mut self) -> PResult<Document> {
         let mut definitions = vec![];
+        if self.kind() == TokenKind::Eof && self.opts.lenient.empty_document {
+            self.used.push("empty-document");
+            return Ok(Document { definitions });
+        }
         loop {
             definitions.push(self.definition()?);
             if self.kind() == TokenKind::Eof {
@@ -208,7 +260,28 @@ impl<'a> Parser<'a> {
         let start = self.tok().span.start as usize;
         let def = match self.kind() {
             TokenKind::LBrace => Definition::Operation(self.operation_definition()?),
-            TokenKind::String | TokenKind::BlockString => Definition::TypeSystem(self.type_system_definition()?),
+            TokenKind::String | TokenKind::BlockString => {
+                if self.opts.lenient.description_on_extension {
+                    // look past one or two strings for `extend`
+                    let mut n = 1;
+                    if self.opts.lenient.second_description_string
+                        && matches!(self.tokens[(self.i + 1).min(self.tokens.len() - 1)].kind, TokenKind::String | TokenKind::BlockString)
+                    {
+                        n = 2;
+                    }
+                    let t = &self.tokens[(self.i + n).min(self.tokens.len() - 1)];
+                    if t.kind == TokenKind::Name && self.text(t) == "extend" {
+                        self.used.push("description-on-extension");
+                        if n == 2 {
+                            self.used.push("second-description-string");
+                        }
+                        self.i += n;
+                        let def = Definition::Extension(self.type_system_extension()?);
+                        return self.check_kind(def, start);
+                    }
+                }
+                Definition::TypeSystem(self.type_system_definition()?)
+            }
             TokenKind::Name => match self.cur_text() {
                 "query" | "mutation" | "subscription" => Definition::Operation(self.operation_definition()?),
                 "fragment" => Definition::Fragment(self.fragment_definition()?),
@@ -220,6 +293,10 @@ impl<'a> Parser<'a> {
             },
             _ => return self.unexpected("a definition"),
         };
+        self.check_kind(def, start)
+    }
+
+    fn check_kind(&mut self, def: Definition, start: usize) -> PResult<Definition> {
         let ok = match self.kind {
             DocumentKind::Any => true,
             DocumentKind::Executable => def.is_executable(),
@@ -393,7 +470,10 @@ impl<'a> Parser<'a> {
         let start = self.tok().span;
         self.expect_keyword("fragment")?;
         if self.at_keyword("on") {
-            return self.unexpected("a fragment name (not 'on')");
+            if !self.opts.lenient.fragment_named_on {
+                return self.unexpected("a fragment name (not 'on')");
+            }
+            self.used.push("fragment-named-on");
         }
         let name = self.name()?;
         self.expect_keyword("on")?;
@@ -505,6 +585,16 @@ impl<'a> Parser<'a> {
     // Type system
     // ---------------------------------------------------------------------------------------
 
+    fn second_string(&mut self, had_description: bool) {
+        if had_description
+            && self.opts.lenient.second_description_string
+            && matches!(self.kind(), TokenKind::String | TokenKind::BlockString)
+        {
+            self.used.push("second-description-string");
+            self.advance();
+        }
+    }
+
     // Description : StringValue
     fn description(&mut self) -> PResult<Option<StringValue>> {
         if matches!(self.kind(), TokenKind::String | TokenKind::BlockString) {
@@ -518,6 +608,7 @@ impl<'a> Parser<'a> {
     fn type_system_definition(&mut self) -> PResult<TypeSystemDefinition> {
         let start = self.tok().span;
         let description = self.description()?;
+        self.second_string(description.is_some());
         if self.kind() != TokenKind::Name {
             return self.unexpected("a type system definition");
         }
@@ -629,7 +720,11 @@ impl<'a> Parser<'a> {
             // DirectiveDefinition : Description? directive @ Name ArgumentsDefinition? on DirectiveLocations
             "directive" => {
                 self.advance();
-                self.expect(TokenKind::At)?;
+                if self.kind() != TokenKind::At && self.opts.lenient.directive_without_at {
+                    self.used.push("directive-without-at");
+                } else {
+                    self.expect(TokenKind::At)?;
+                }
                 let name = self.name()?;
                 let arguments = if self.kind() == TokenKind::LParen { self.arguments_definition()? } else { vec![] };
                 let mut repeatable = false;
@@ -712,6 +807,7 @@ impl<'a> Parser<'a> {
     fn field_definition(&mut self) -> PResult<FieldDefinition> {
         let start = self.tok().span;
         let description = self.description()?;
+        self.second_string(description.is_some());
         let name = self.name()?;
         let arguments = if self.kind() == TokenKind::LParen { self.arguments_definition()? } else { vec![] };
         self.expect(TokenKind::Colon)?;
@@ -765,7 +861,10 @@ impl<'a> Parser<'a> {
             let start = self.tok().span;
             let description = self.description()?;
             if self.kind() == TokenKind::Name && matches!(self.cur_text(), "true" | "false" | "null") {
-                return self.unexpected("an enum value (not true, false or null)");
+                if !self.opts.lenient.reserved_enum_value {
+                    return self.unexpected("an enum value (not true, false or null)");
+                }
+                self.used.push("reserved-enum-value");
             }
             let name = self.name()?;
             let directives = self.directives(true)?;
@@ -834,7 +933,10 @@ impl<'a> Parser<'a> {
                 let operation_types =
                     if self.kind() == TokenKind::LBrace { self.operation_type_definitions()? } else { vec![] };
                 if directives.is_empty() && operation_types.is_empty() {
-                    return self.unexpected("directives or operation types in a schema extension");
+                    if !self.opts.lenient.empty_extension {
+                        return self.unexpected("directives or operation types in a schema extension");
+                    }
+                    self.used.push("empty-extension");
                 }
                 Ok(TypeSystemExtension::Schema(SchemaDefinition {
                     description: None,
@@ -849,7 +951,10 @@ impl<'a> Parser<'a> {
                 let name = self.name()?;
                 let directives = self.directives(true)?;
                 if directives.is_empty() {
-                    return self.unexpected("directives in a scalar extension");
+                    if !self.opts.lenient.empty_extension {
+                        return self.unexpected("directives in a scalar extension");
+                    }
+                    self.used.push("empty-extension");
                 }
                 Ok(TypeSystemExtension::Scalar(ScalarTypeDefinition {
                     description: None,
@@ -868,7 +973,10 @@ impl<'a> Parser<'a> {
                 let directives = self.directives(true)?;
                 let fields = if self.kind() == TokenKind::LBrace { self.fields_definition()? } else { vec![] };
                 if interfaces.is_empty() && directives.is_empty() && fields.is_empty() {
-                    return self.unexpected("interfaces, directives or fields in a type extension");
+                    if !self.opts.lenient.empty_extension {
+                        return self.unexpected("interfaces, directives or fields in a type extension");
+                    }
+                    self.used.push("empty-extension");
                 }
                 Ok(TypeSystemExtension::Object(ObjectTypeDefinition {
                     description: None,
@@ -888,7 +996,10 @@ impl<'a> Parser<'a> {
                 let directives = self.directives(true)?;
                 let fields = if self.kind() == TokenKind::LBrace { self.fields_definition()? } else { vec![] };
                 if interfaces.is_empty() && directives.is_empty() && fields.is_empty() {
-                    return self.unexpected("directives or fields in an interface extension");
+                    if !self.opts.lenient.empty_extension {
+                        return self.unexpected("directives or fields in an interface extension");
+                    }
+                    self.used.push("empty-extension");
                 }
                 Ok(TypeSystemExtension::Interface(InterfaceTypeDefinition {
                     description: None,
@@ -907,7 +1018,10 @@ impl<'a> Parser<'a> {
                 let directives = self.directives(true)?;
                 let members = if self.kind() == TokenKind::Equals { self.union_member_types()? } else { vec![] };
                 if directives.is_empty() && members.is_empty() {
-                    return self.unexpected("directives or member types in a union extension");
+                    if !self.opts.lenient.empty_extension {
+                        return self.unexpected("directives or member types in a union extension");
+                    }
+                    self.used.push("empty-extension");
                 }
                 Ok(TypeSystemExtension::Union(UnionTypeDefinition {
                     description: None,
@@ -925,7 +1039,10 @@ impl<'a> Parser<'a> {
                 let directives = self.directives(true)?;
                 let values = if self.kind() == TokenKind::LBrace { self.enum_values_definition()? } else { vec![] };
                 if directives.is_empty() && values.is_empty() {
-                    return self.unexpected("directives or values in an enum extension");
+                    if !self.opts.lenient.empty_extension {
+                        return self.unexpected("directives or values in an enum extension");
+                    }
+                    self.used.push("empty-extension");
                 }
                 Ok(TypeSystemExtension::Enum(EnumTypeDefinition {
                     description: None,
@@ -943,7 +1060,10 @@ impl<'a> Parser<'a> {
                 let directives = self.directives(true)?;
                 let fields = if self.kind() == TokenKind::LBrace { self.input_fields_definition()? } else { vec![] };
                 if directives.is_empty() && fields.is_empty() {
-                    return self.unexpected("directives or fields in an input extension");
+                    if !self.opts.lenient.empty_extension {
+                        return self.unexpected("directives or fields in an input extension");
+                    }
+                    self.used.push("empty-extension");
                 }
                 Ok(TypeSystemExtension::InputObject(InputObjectTypeDefinition {
                     description: None,
